@@ -501,4 +501,72 @@ def Op.ctx : Op → Ctx
   | .send c .. | .inputOutput c .. | .delegate c .. | .undelegate c .. | .burn c .. | .addHold c .. => c
   | _ => {}
 
+/-! ### messages: atomic sequences of primitives (the exchange's routes)
+
+An exchange message releases holds, moves funds through the bank keeper and places new holds in
+one transaction: every step is one of the primitives above, the first error rejects the whole
+message (baseapp discards the cached writes).  The lowerings keep the Go order of the calls. -/
+
+/-- run the primitives of one message; the first error rejects the message -/
+def applyAll (s : State) : List Op → Except Err State
+  | [] => .ok s
+  | op :: rest =>
+    match apply s op with
+    | .error e => .error e
+    | .ok s' => applyAll s' rest
+
+/-- a rejected message changes nothing -/
+def stepMsg (s : State) (ops : List Op) : State :=
+  match applyAll s ops with
+  | .ok s' => s'
+  | .error _ => s
+
+/-- the context of every exchange transfer: `quarantine.WithBypass(ctx)` and nothing else
+(x/exchange/keeper/keeper.go:204 `DoTransfer`, payments.go:275 `AcceptPayment`;
+`markertypes.WithTransferAgents` only feeds the marker send restriction). -/
+def exchangeCtx : Ctx := { quarantineBypass := true }
+
+/-- number of send-restriction calls of one `DoTransfer` -/
+def transferCalls (ins outs : List (Addr × Coins)) : Nat :=
+  match ins, outs with
+  | [_], [_] => 1
+  | _, _ => (transfersOf ins outs).length
+
+/-- x/exchange/keeper/keeper.go:201 `DoTransfer`: one input and one output → `SendCoins`
+(:222), otherwise `InputOutputCoinsProv` (:232). -/
+def doTransferOp (ins outs : List (Addr × Coins)) (rs : List (Option Addr)) : Op :=
+  match ins, outs with
+  | [(f, amt)], [(t, _)] => .send exchangeCtx f t amt (rs.headD (some t))
+  | _, _ => .inputOutput exchangeCtx ins outs rs
+
+/-- several `DoTransfer`s in a row; the restriction outcomes `rs` are consumed call by call -/
+def doTransfersOps : List (List (Addr × Coins) × List (Addr × Coins)) → List (Option Addr) → List Op
+  | [], _ => []
+  | (ins, outs) :: rest, rs =>
+    doTransferOp ins outs (rs.take (transferCalls ins outs)) :: doTransfersOps rest (rs.drop (transferCalls ins outs))
+
+/-- x/exchange/keeper/payments.go:230 `AcceptPayment` after the payment was found and matched:
+`deletePaymentAndReleaseHold` (:270 → `ReleaseHold(source, SourceAmount)`), then
+`SendCoins(source → target, SourceAmount)` (:277) and `SendCoins(target → source, TargetAmount)`
+(:284), each skipped when its amount is zero, both under `quarantine.WithBypass` only. -/
+def acceptPaymentOps (src tgt : Addr) (srcAmt tgtAmt : Coins) (rs : List (Option Addr)) : List Op :=
+  let first := if isZero srcAmt then [] else [Op.send exchangeCtx src tgt srcAmt (rs.headD (some tgt))]
+  let rs' := if isZero srcAmt then rs else rs.drop 1
+  let second := if isZero tgtAmt then [] else [Op.send exchangeCtx tgt src tgtAmt (rs'.headD (some src))]
+  .releaseHold src srcAmt :: (first ++ second)
+
+/-- x/exchange/keeper/fulfillment.go:266 `closeSettlement` in a market without fees: release the
+hold of every filled order (:269-279 → orders.go:601 `ReleaseHold`), then every transfer
+(:285 `DoTransfer`). -/
+def closeSettlementOps (releases : List (Addr × Coins))
+    (transfers : List (List (Addr × Coins) × List (Addr × Coins))) (rs : List (Option Addr)) : List Op :=
+  releases.map (fun p => Op.releaseHold p.1 p.2) ++ doTransfersOps transfers rs
+
+/-- x/exchange/keeper/commitments.go:375 `SettleCommitments` without fees, after the transfer was
+built: `ReleaseCommitments(inputs)` (:393 → :181 `ReleaseHold`), `DoTransfer` (:402), then
+`addCommitmentsUnsafe(outputs)` (:412 → :119 `AddHold`). -/
+def settleCommitmentsOps (ins outs : List (Addr × Coins)) (rs : List (Option Addr)) : List Op :=
+  ins.map (fun p => Op.releaseHold p.1 p.2) ++ [doTransferOp ins outs rs] ++
+    outs.map (fun p => Op.addHold {} p.1 p.2)
+
 end PvModel.Lock
